@@ -43,7 +43,10 @@ def expectedFingerprints : List (String × String) := [
   ("Type.process_item", "2992c687015964ab"),
   ("Enum.process_item", "82b1dcd40f574825"),
   ("EndDo.process_item", "f9155d7e517f1ffc"),
-  ("SubprogramPrefix.process_item", "def9555af8345681")
+  ("SubprogramPrefix.process_item", "def9555af8345681"),
+  ("Enum.tostr", "e0b65e21526d992f"),
+  ("If.process_item", "448378003074404b"),
+  ("TypeDeclarationStatement.process_item", "f0f8199d81add4b8")
 ]
 
 /-- the model is up to date with the mirrored methods -/
@@ -158,8 +161,20 @@ theorem end_line_quiet : tables.endLineQuiet = true := by decide
 
 theorem top_open : TopOpen tables := by decide
 
-/-- regex facts used by the witnesses: the Begin regex of ENUM rejects the header fparser1 prints for
-    it, the END regex of ENUM admits no name; `EndWhere` (`end\s*\where…`: `\w` then `here`) accepts
+/-- only PROGRAM, MODULE and BLOCK DATA print their header with the base `tostr` (`BLOCKTYPE name`;
+    ENUM has its own `tostr` since the repair of `ENUM __ENUM__`), and the default names: unnamed
+    constructs and ENUM have the empty name, a PROGRAM without name keeps `__PROGRAM__` -/
+theorem base_tostr_rows :
+    ((tables.rows.filter (·.baseTostr)).map (·.cls)) = ["Program", "Module", "BlockData"]
+    ∧ (tables.rows.map fun r => (r.cls, r.defName)) =
+      [("BeginSource", "__BEGINSOURCE__"), ("Program", "__PROGRAM__"), ("Type", "__TYPE__"), ("Enum", ""),
+       ("Interface", "__INTERFACE__"), ("Associate", ""), ("Do", ""), ("Forall", ""), ("IfThen", ""),
+       ("SelectCase", ""), ("SelectType", ""), ("Where", ""), ("If", "__IF__"),
+       ("Function", "__FUNCTION__"), ("Subroutine", "__SUBROUTINE__"), ("Module", "__MODULE__"),
+       ("BlockData", "__BLOCKDATA__")] := by decide +kernel
+
+/-- regex facts: the Begin regex of ENUM rejects a `BLOCKTYPE name` header (what fparser1 printed for
+    it before the repair), the END regex of ENUM admits no name; `EndWhere` (`end\s*\where…`: `\w` then `here`) accepts
     `end there`, which `EndStatement.process_item` then declares invalid -/
 theorem regex_facts :
     (rowNamed "Enum").beginRe.matches "enum __enum__".toList = false
